@@ -74,7 +74,10 @@ class Squeeze(_PreservesOrder):
         ----------
         axis : Optional[int, Tuple[int, ...]]"""
         self.variables = (a,)
-        return np.squeeze(a.data, axis=axis)
+        out = np.squeeze(a.data, axis=axis)
+        # with nothing to squeeze, numpy returns the input array itself; hand back a
+        # proper view of it so that the output is registered as a view of `a`
+        return out[...] if out is a.data else out
 
 
 class Flatten(_PreservesOrder):
